@@ -78,10 +78,13 @@ theorem resolveRanks_possible {cfg : Cfg} {gt gd : List (String × Row)} (h : (r
   · exact h
 
 /-- **Dev robustness.** A viable combination tested against a dev sample satisfies on it the
-    frequency bound, has distinct consecutive rates, and ranks the groups compatibly with train. -/
+    frequency bound, has every group observed (so that transforming the dev sample yields the same
+    label set, whatever `min_freq_mod`), has distinct consecutive rates, and ranks the groups
+    compatibly with train. -/
 theorem viable_dev {cfg : Cfg} {train d : List (String × Row)} {comb : List (List String)}
     (h : (viability cfg train (some d) comb).viable = true) :
-    minFreqOk cfg ((grouper cfg d comb).map (·.2)) = true ∧
+    (minFreqOk cfg ((grouper cfg d comb).map (·.2)) = true ∧
+      (freqs ((grouper cfg d comb).map (·.2))).all (fun f => decide (0 < f)) = true) ∧
     distinctRates ((grouper cfg d comb).map (·.2)) = true ∧
     ranksPossible (grouper cfg train comb) (grouper cfg d comb) = true := by
   unfold viability at h
